@@ -251,7 +251,8 @@ def s_elements():
                 report("int-equality", group=name, n=n); return
             if n % q != 0 and g.bytes_to_element(e.to_bytes()).to_bytes() != e.to_bytes():
                 report("int-roundtrip", group=name, n=n); return
-        for bad in [b"", rg.enc(1)[:-1], rg.enc(1) + b"\x00", b"\x00" + rg.enc(rg.base()), bytes(rg.esize), (rg.p).to_bytes(rg.esize, "big"), (rg.p - 1).to_bytes(rg.esize, "big"), (2).to_bytes(rg.esize, "big") if pow(2, q, rg.p) != 1 else bytes(rg.esize)]:
+        over = [(rg.p + m).to_bytes(rg.esize, "big") for m in (1, rg.base(), rg.mul(5, rg.base())) if rg.p + m < 256 ** rg.esize]
+        for bad in over + [b"", rg.enc(1)[:-1], rg.enc(1) + b"\x00", b"\x00" + rg.enc(rg.base()), bytes(rg.esize), (rg.p).to_bytes(rg.esize, "big"), (rg.p - 1).to_bytes(rg.esize, "big"), (2).to_bytes(rg.esize, "big") if pow(2, q, rg.p) != 1 else bytes(rg.esize)]:
             if outcome(g.bytes_to_element, bad)[0] == "ok":
                 report("int-decode-accepts", group=name, encoding=bad); return
         for i in [0, 1, q - 1]:
